@@ -19,7 +19,7 @@ PROPERTY = "C16"
 RULE = (
     "cases = source sets (main file + 0-2 import files) from 6 classes: random text, token soup, "
     "grammar-derived programs over a small identifier pool, line/token mutations of the repository corpus, "
-    "semantic programs from the embgen model (valid and singly mutated), deep expression nesting (<=40); "
+    "semantic programs from the embgen model (valid, singly mutated, and with 1-3 scope-aware substitutions: expression slots replaced by expressions over names that are in scope there but of any kind - scalar/struct/array/enum/virtual fields incl. later ones, parameters, generated $size fields, $next, this, static references, huge constants, builtin functions), deep expression nesting (<=40); "
     "each compiled in-process front end -> back end -> format_errors, a sample through the embossc CLI. "
     "Non-trivial = main file tokenises and parses (IR passes reached) or fails with a located error on a line > 1; "
     "distinct by hash of the source set."
@@ -200,9 +200,11 @@ def build_case(rnd, model_source=None):
         e = textmut.deep_expression(rnd, d)
         text = "enum Ee:\n  AA = 1\nstruct Foo:\n  0 [+1]  UInt  x\n  let y = %s\n  if %s == 0:\n    1 [+1]  UInt  z\n" % (e, e)
         return "deep-expression", {"m.emb": text}, "m.emb"
-    if rnd.random() < 0.3:
-        from embgen import semgen
+    from embgen import semgen
 
+    if k < 0.91:
+        return semgen.scope_substituted_source(rnd)
+    if rnd.random() < 0.3:
         return semgen.import_pair(rnd)
     return model_source(rnd)
 
